@@ -168,9 +168,13 @@ class Adapter(object):
     self.declared = set()
     self.sinks = {}
     self.counts = {}
-    self.deferrals = []
-    self.outstanding = []
-    self.upreg = "none"
+    self.cr = catalog.get("cr") or {"on": "none", "p": []}
+    self.cr_done = False
+    self.held = {}            # owner -> kept deferral
+    self.outstanding = set()  # owners whose deferral the harness has not called yet
+    self.upprog = []
+    self.up_ran = False
+    self.going_up_event = None
     self.requit = False
     self.last_container = None
     self.last_callback = None
@@ -178,6 +182,8 @@ class Adapter(object):
     self.diverged = False
     for nm, cls in LIFE[1:]:
       self.core.addListener(cls, self._life_handler(nm))
+    if self.cr["on"] != "none":
+      self.core.addListener(pcore.ComponentRegistered, self._cr_handler)
     if noisy:
       # a ComponentRegistered listener that fails must not disturb rendezvous
       def bad(event):
@@ -212,8 +218,9 @@ class Adapter(object):
       if nm == "GoingUp":
         self.going_up_event = event
       self.log.append({"k": "life", "n": nm, "s": self.snapshot()})
-      if nm == "Up" and self.upreg != "none":
-        self._register(self.upreg)
+      if nm == "Up" and not self.up_ran:
+        self.up_ran = True        # a second Up is logged, the program is not repeated
+        self._run_prog(self.upprog, "up")
       if nm == "GoingDown" and self.requit:
         self.core.quit()
     return handler
@@ -254,22 +261,53 @@ class Adapter(object):
             "attrs": self._attrs()}
 
   # ---- scripted callbacks
-  def _run_script(self, w):
-    sc = self.script[w]
-    k = sc["k"]
-    if k in ("reg", "regthrow"):
-      self._register(sc["c"])
-    elif k == "cwr":
-      if sc["w"] not in self.declared:
-        self._call_when_ready(sc["w"], sc["d"])
-    if k in ("throw", "regthrow"):
-      raise ScriptedFailure("scripted callback failure in " + w)
+  def _run_prog(self, prog, owner, event=None):
+    """Run a handler program (spec: ApplyOp) re-entrantly, from inside core."""
+    for op in prog:
+      k = op["k"]
+      if k == "reg":
+        self._register(op["c"])
+      elif k == "cwr":
+        if op["w"] not in self.declared:
+          self._call_when_ready(op["w"], op["d"])
+      elif k == "acq":
+        self.held[owner] = self._take_deferral(event)
+        self.outstanding.add(owner)
+      elif k == "sync":
+        self._take_deferral(event)()
+      elif k == "relprev":
+        i = int(owner[1:])
+        for j in range(1, i):
+          o = "g%d" % j
+          if o in self.outstanding:
+            self.outstanding.discard(o)
+            self.held[o]()
+            break
+      elif k == "raise":
+        raise ScriptedFailure("scripted failure in the program of " + owner)
+      else:
+        raise ValueError(k)
+
+  def _take_deferral(self, event=None):
+    event = event or self.going_up_event
+    if event is not None:
+      return event.get_deferral()
+    return self.core._get_go_up_deferral()     # before goUp() there is no event yet
+
+  def _cr_handler(self, event):
+    if self.cr_done or event.name != self.name[self.cr["on"]]:
+      return
+    if not self._budget():
+      return
+    self.cr_done = True
+    self.log.append({"k": "cr", "n": self.cr["on"], "s": self.snapshot()})
+    self._run_prog(self.cr["p"], "cr")
 
   def _fired(self, w):
     if not self._budget():
       return
     self.log.append({"k": "fire", "n": w, "s": self.snapshot()})
-    self._run_script(w)
+    self._run_prog(self.script[w], w)
 
   def _register(self, c):
     v = (self.style + self.comps.index(c)) % 2
@@ -347,19 +385,10 @@ class Adapter(object):
     self.core.listen_to_dependencies(sink, **kw)
 
   # ---- GoingUp handlers
-  def _going_up_handler(self, h):
+  def _going_up_handler(self, i, prog):
     def handler(event):
-      if h == "hold":
-        self.deferrals.append(event.get_deferral())
-        self.outstanding.append(len(self.deferrals))
-      elif h == "sync":
-        d = event.get_deferral()
-        self.deferrals.append(d)
-        d()
-      elif h == "relprev":
-        if self.outstanding:
-          i = self.outstanding.pop(0)
-          self.deferrals[i - 1]()
+      if self._budget():
+        self._run_prog(prog, "g%d" % i, event)
     return handler
 
   # ---- the spec's actions
@@ -372,24 +401,30 @@ class Adapter(object):
     elif a == "ListenTo":
       self._listen(args["w"], args["deps"])
     elif a == "GoUp":
-      self.outstanding = []
-      self.upreg = args["ur"]
-      for h in args["hs"]:
-        self.core.addListener(pcore.GoingUpEvent, self._going_up_handler(h))
+      self.upprog = args["up"]
+      for i, prog in enumerate(args["hs"]):
+        self.core.addListener(pcore.GoingUpEvent, self._going_up_handler(i + 1, prog))
       self.core.addListener(pcore.GoingUpEvent, self._life_handler("GoingUp"))
-      self._go_up()
+      try:
+        self._go_up()
+      except ScriptedFailure:
+        pass              # the Up handler's program ends in "raise": goUp() may propagate it
     elif a == "GetDeferral":
-      self.deferrals.append(self.going_up_event.get_deferral())
-      self.outstanding.append(len(self.deferrals))
+      o = "l%d" % (1 + len([x for x in self.held if x.startswith("l")]))
+      self.held[o] = self._take_deferral()
+      self.outstanding.add(o)
     elif a == "Release":
-      d = args["d"]
-      if d in self.outstanding:
-        self.outstanding.remove(d)
-        self.deferrals[d - 1]()
+      o = args["o"]
+      if o in self.outstanding:
+        self.outstanding.discard(o)
+        try:
+          self.held[o]()
+        except ScriptedFailure:
+          pass            # ... and so may the deferral that lets Up happen
       else:
         # called again: must not have any effect (an exception is fine)
         try:
-          self.deferrals[d - 1]()
+          self.held[o]()
         except Exception:
           pass
     elif a == "Quit":
@@ -445,7 +480,8 @@ class Adapter(object):
     if a == "CallWhenReady":
       sig["callback"] = self.last_callback
     if a == "GoUp":
-      sig["handlers"] = "+".join(args.get("hs", [])) or "-"
+      sig["handlers"] = "+".join(".".join(op["k"] for op in p) or "none" for p in args.get("hs", [])) or "-"
+      sig["up"] = ".".join(op["k"] for op in args.get("up", [])) or "none"
     if isinstance(obs, dict) and "EXC" in obs:
       sig["observed"] = "exception:" + obs["EXC"]
       return sig
@@ -515,6 +551,9 @@ def canon_behaviour(beh):
     args = st.get("args") or {}
     if "deps" in args:
       args["deps"] = sorted(args["deps"])
+    for prog in list(args.get("hs", ())) + [args.get("up", ())]:
+      for op in prog:
+        op["d"] = sorted(op["d"])
     exp = st.get("exp") or {}
     if "logs" in exp:
       for lg in exp["logs"]:
@@ -532,5 +571,6 @@ def canon_catalog(cat):
   cat["comps"] = sorted(cat["comps"])
   cat["sources"] = sorted(cat["sources"])
   cat["handles"] = {w: sorted(v) for w, v in cat["handles"].items()}
-  cat["script"] = {w: dict(v, d=sorted(v["d"])) for w, v in cat["script"].items()}
+  cat["script"] = {w: [dict(op, d=sorted(op["d"])) for op in v] for w, v in cat["script"].items()}
+  cat["cr"] = dict(cat["cr"], p=[dict(op, d=sorted(op["d"])) for op in cat["cr"]["p"]])
   return cat
